@@ -622,7 +622,9 @@ theorem decode_ok (p : Proto) (strict : Bool) : (ty : Ty) → (v : Val) → DT t
         refine ⟨w, ?_, by simp [Shape]⟩
         have hne : ¬ (p = .compact ∧ (a :: l).length = 0) := by simp
         have : ((a :: l).length == 0) = false := by simp
-        simp only [hne, if_false, this, Bool.false_eq_true, bne_self_eq_false]
+        have hntk : (typeOf k == TType.true_) = false := by simpa using typeOf_ne_true k
+        have hntv : (typeOf v == TType.true_) = false := by simpa using typeOf_ne_true v
+        simp only [hne, if_false, this, Bool.false_eq_true, hntk, hntv, bne_self_eq_false]
         exact hw
   | .struct fs, v, h => by
     cases v <;> simp only [DT, Bool.false_eq_true] at h
